@@ -485,7 +485,7 @@ def runNumeric (lines : List String) : IO Unit := do
             if !closeC v (mget g0 (nat! i) (nat! j)) (budget + 1.0e-9 * (1.0 + tot)) then
               a ← fail a "C12" s!"quadratic model: G_{i}{j}(iw_{n}) = ({v.re},{v.im}) but (z-h)^-1 = ({(mget g0 (nat! i) (nat! j)).re},{(mget g0 (nat! i) (nat! j)).im})"
           | none => pure ()
-    | ["o", "gfz", i, j, zr, zi, r1, i1, _, _] =>
+    | ["o", "gfz", i, j, zr, zi, r1, i1, rc, ic] =>
       let s := a.s; let w := specWeights s
       let (a1, ci) := getRot a (nat! i); let (a2, cj) := getRot a1 (nat! j); a := a2
       let z : C := ⟨fOf zr, fOf zi⟩
@@ -496,6 +496,13 @@ def runNumeric (lines : List String) : IO Unit := do
         a ← fail a "C11" s!"G_{i}{j}(z=({z.re},{z.im})) = ({v.re},{v.im}) differs from the Lehmann sum ({g.re},{g.im})"
       -- conj symmetry against the mirrored component at conj z (spec side; implementation side is compared when both were requested)
       a := remember a s!"gfz {i} {j} {zr} {zi}" [v]
+      -- the same symmetry on the values read from the container of all components
+      let vcont := parseC rc ic
+      a := remember a s!"gfzc {i} {j} {zr} {zi}" [vcont]
+      match lookupSeen a s!"gfzc {j} {i} {zr} {hexOfFloat (-(fOf zi))}" with
+      | some [u] => if !a.truncated && !closeC vcont.conj u (1.0e-9 * (1.0 + tot)) then
+          a ← fail a "C11" s!"container: conj G_{i}{j}(z) = ({vcont.re},{-vcont.im}) != G_{j}{i}(conj z) = ({u.re},{u.im}) at z=({z.re},{z.im})"
+      | _ => pure ()
       let zc := hexOfFloat (-(fOf zi))
       match lookupSeen a s!"gfz {j} {i} {zr} {zc}" with
       | some [u] => if !a.truncated && !closeC v.conj u (1.0e-9 * (1.0 + tot)) then
@@ -544,23 +551,23 @@ def runNumeric (lines : List String) : IO Unit := do
         | some [u] =>
           a := a.bump "exchange12_checks"
           if !(i == j && n1 == n2) && !closeC v (-u) (1.0e-8 * (1.0 + tot)) then
-            a ← fail a "C13" s!"chi_{j}{i}{k}{l}({n2},{n1};{n3}) = ({u.re},{u.im}) is not -chi_{i}{j}{k}{l}({n1},{n2};{n3}) = ({-v.re},{-v.im})"
+            a ← failChi a "C13" s!"chi_{j}{i}{k}{l}({n2},{n1};{n3}) = ({u.re},{u.im}) is not -chi_{i}{j}{k}{l}({n1},{n2};{n3}) = ({-v.re},{-v.im})"
         | _ => pure ()
         let n4 := (int! n1) + (int! n2) - (int! n3)
         match lookupSeen a s!"chi {i} {j} {l} {k} {n1} {n2} {n4}" with
         | some [u] =>
           a := a.bump "exchange34_checks"
           if !(k == l && n4 == int! n3) && !closeC v (-u) (1.0e-8 * (1.0 + tot)) then
-            a ← fail a "C13" s!"chi_{i}{j}{l}{k}({n1},{n2};{n4}) = ({u.re},{u.im}) is not -chi_{i}{j}{k}{l}({n1},{n2};{n3}) = ({-v.re},{-v.im})"
+            a ← failChi a "C13" s!"chi_{i}{j}{l}{k}({n1},{n2};{n4}) = ({u.re},{u.im}) is not -chi_{i}{j}{k}{l}({n1},{n2};{n3}) = ({-v.re},{-v.im})"
         | _ => pure ()
       if a.truncated && !amb then
         let (xk, _, tk) := specChi s w #[ci, cj, adjoint ck] (adjoint cl) zs (keepOf s)
         a := a.bump "stripe_rule_checks"
         if !closeC v xk (1.0e-8 * (1.0 + tk)) then
-          a ← fail a "C19" s!"stripe rule: after truncation chi_{i}{j}{k}{l}({n1},{n2};{n3}) = ({v.re},{v.im}) is not the sum over the world stripes with a retained block ({xk.re},{xk.im})"
+          a ← failChi a "C19" s!"stripe rule: after truncation chi_{i}{j}{k}{l}({n1},{n2};{n3}) = ({v.re},{v.im}) is not the sum over the world stripes with a retained block ({xk.re},{xk.im})"
       if amb then a := { a with ambiguous := a.ambiguous + 1 }
       else if !a.truncated && !closeC v x (1.0e-8 * (1.0 + tot)) then
-        a ← fail a "C02" s!"chi_{i}{j}{k}{l}({n1},{n2};{n3}) = ({v.re},{v.im}) differs from the definition ({x.re},{x.im}) by {(v - x).abs}"
+        a ← failChi a "C02" s!"chi_{i}{j}{k}{l}({n1},{n2};{n3}) = ({v.re},{v.im}) differs from the definition ({x.re},{x.im}) by {(v - x).abs}"
     | "o" :: "chitab" :: i :: j :: k :: l :: clear :: _ :: vals =>
       -- table path: must equal on-demand evaluation of the same triples (the `chi` lines just before)
       let tab := (List.range (vals.length / 2)).map fun q => parseC (vals.getD (2 * q) "0") (vals.getD (2 * q + 1) "0")
@@ -572,12 +579,12 @@ def runNumeric (lines : List String) : IO Unit := do
         if od.length == tab.length then
           for (x, y) in tab.zip od do
             if !closeC x y (1.0e-10 * (1.0 + y.abs)) then
-              a ← fail a "C02" s!"frequency table (clear={clear}) of chi_{i}{j}{k}{l}: ({x.re},{x.im}) vs on-demand ({y.re},{y.im})"
+              a ← failChi a "C02" s!"frequency table (clear={clear}) of chi_{i}{j}{k}{l}: ({x.re},{x.im}) vs on-demand ({y.re},{y.im})"
     | ["o", "chiafter", i, j, k, l, n1, n2, n3, re, im] =>
       let v := parseC re im
       match lookupSeen a s!"chi {i} {j} {k} {l} {n1} {n2} {n3}" with
       | some [y] => if !a.truncated && !closeC v y (1.0e-10 * (1.0 + y.abs)) then
-          a ← fail a "C02" s!"evaluation after a table computation differs for chi_{i}{j}{k}{l}({n1},{n2},{n3})"
+          a ← failChi a "C02" s!"evaluation after a table computation differs for chi_{i}{j}{k}{l}({n1},{n2},{n3})"
       | _ => pure ()
     | ["o", "avg", p, q, re, im] =>
       let s := a.s; let w := specWeights s
@@ -632,7 +639,7 @@ def runNumeric (lines : List String) : IO Unit := do
       -- stress mode: repeated prepare()/compute(), copies and re-evaluation must not change any value
       a := a.bump "idempotence_checks"
       if rest.getLastD "1" != "1" then
-        let prop := if what == "gf" then "C01" else if what == "chi" then "C02" else "C14"
+        let prop := if what == "gf" then "C01" else if what == "chi" then "C02" else if what == "vertex" then "C15" else "C14"
         a ← fail a prop s!"{what} {" ".intercalate rest.dropLast}: repeated prepare/compute, a copy or a second evaluation changes the value"
     | ["o", "chipurged", i, j, k, l, n1, n2, n3, re, im] =>
       -- after a table computation that discarded the terms the object may refuse on-demand evaluation, but if it answers,
@@ -640,7 +647,7 @@ def runNumeric (lines : List String) : IO Unit := do
       a := a.bump "purged_evaluations"
       match lookupSeen a s!"chi {i} {j} {k} {l} {n1} {n2} {n3}" with
       | some [y] => if !closeC (parseC re im) y (1.0e-10 * (1.0 + y.abs)) then
-          a ← fail a "C02" s!"after discarding the terms chi_{i}{j}{k}{l}({n1},{n2},{n3}) evaluates to ({(parseC re im).re},{(parseC re im).im}) instead of ({y.re},{y.im}) (or refusing)"
+          a ← failChi a "C02" s!"after discarding the terms chi_{i}{j}{k}{l}({n1},{n2},{n3}) evaluates to ({(parseC re im).re},{(parseC re im).im}) instead of ({y.re},{y.im}) (or refusing)"
       | _ => pure ()
     | ["o", "suscreeval", p, q, r, t, n, b0r, b0i, x0r, x0i, a5r, a5i, x2r, x2i] =>
       -- the SAME object evaluated before and after subtractDisconnected: before = plain value, after = subtracted value
@@ -702,7 +709,7 @@ def runNumeric (lines : List String) : IO Unit := do
         let gBudget := s.beta * ((if n1 == n3 then g13.abs * b24 + g24.abs * b13 + b13 * b24 else 0.0)
                                  + (if n2 == n3 then g14.abs * b23 + g23.abs * b14 + b14 * b23 else 0.0))
         if v.abs > 1.0e-7 * (1.0 + x.abs + chi0.abs) + gBudget then
-          a ← fail a "C12" s!"quadratic model: vertex ({i}{j}{k}{l}) at ({n1},{n2},{n3}) = ({v.re},{v.im}) does not vanish (chi = ({x.re},{x.im}))"
+          a ← failChi a "C12" s!"quadratic model: vertex ({i}{j}{k}{l}) at ({n1},{n2},{n3}) = ({v.re},{v.im}) does not vanish (chi = ({x.re},{x.im}))"
     | "o" :: "retained" :: _ :: flags =>
       let s := a.s
       a := { a with truncated := true, cRot := a.cRot, s := { s with retained := (flags.map (· == "1")).toArray } }
